@@ -1,8 +1,11 @@
-(* Properties_C01.v -- the C01 theorems and nothing else (FinderProofs.v).
-   They cover the scanner under Template.hpp::parse; the parser and renderer
-   as a whole are searched with sanitizers, not proved (DESIGN.md C01). *)
+(* Properties_C01.v -- the C01 theorems and nothing else (FinderProofs.v,
+   TparseSafety.v, TparseTree.v).  They cover the scanner and the whole of
+   Template.hpp::parse (model with every access checked); the renderer on the
+   trees parse builds for arbitrary text is covered by the tree invariant only
+   for texts without super-variable / inline-if tokens and is otherwise
+   searched with sanitizers, not proved (DESIGN.md C01). *)
 From Coq Require Import NArith List.
-From Qv Require Import gen.Tables_tmpl FinderModel FinderProofs.
+From Qv Require Import gen.Tables_tmpl FinderModel FinderProofs TparseModel TparseSafety TparseTree.
 Import ListNotations.
 
 (* Finder::Next never reads content_[i] with i >= length_ and its loop terminates,
@@ -39,3 +42,33 @@ Print Assumptions c01_scan_terminates.
 Theorem c01_word_ids : tp_ids = [1; 2; 3; 4; 5; 6; 7; 8; 9; 10; 11]%N.
 Proof. reflexivity. Qed.
 Print Assumptions c01_word_ids.
+
+(* Template.hpp::parse (TparseModel.v: all eleven match kinds, the storage stack,
+   the loop chain, the attribute scanners, the reads of the expression parser,
+   the 8/16-bit field truncations): for EVERY text, in every character width,
+   no out-of-bounds read at any site, no Last() of an empty array, no tag record
+   read as another kind, no negative unsigned difference, and the main loop
+   terminates within |text|+2 iterations -- the model never yields an Error *)
+Theorem c01_parse_safe : forall w content e, parse_model w content <> Error e.
+Proof. exact parse_safe. Qed.
+Print Assumptions c01_parse_safe.
+
+Theorem c01_parse_total : forall w content, exists l, parse_model w content = Ok l.
+Proof. exact parse_total. Qed.
+Print Assumptions c01_parse_total.
+
+(* the loop_tag chain never dangles: it is exactly the chain of loops still open on the stack *)
+Theorem c01_loop_chain_is_open_loops : forall content st, Inv content st ->
+  ps_chain st = open_loops (ps_stack st) /\ parents_ok (ps_stack st).
+Proof. exact chain_is_open_loops. Qed.
+Print Assumptions c01_loop_chain_is_open_loops.
+
+(* renderer precondition: for texts without {svar: / {if tokens the tree obeys the
+   offset discipline (tags ordered inside their range, Offset <= EndOffset <= length,
+   children inside parents, loop content before its end): every slice the renderer
+   copies has a non-negative length inside the text *)
+Theorem c01_tree_ok_no_inline : forall w content l,
+  (forall o m o', next_w w content o = FOk m o' -> m <> 5%N /\ m <> 6%N) ->
+  parse_model w content = Ok l -> tree_ok (length content) l.
+Proof. exact tree_ok_no_inline. Qed.
+Print Assumptions c01_tree_ok_no_inline.
